@@ -43,7 +43,7 @@ def try_cli(smt2: str, cmd: list[str], timeout_s: int) -> str:
         os.unlink(path)
 
 
-def discharge(ob, axioms, second_opinion=True) -> Verdict:
+def discharge(ob, axioms, second_opinion=True, retry=True) -> Verdict:
     t0 = time.time()
     s = _mk_solver(axioms, ob.assumptions, ob.goal, Z3_MS)
     r = s.check()
@@ -53,7 +53,7 @@ def discharge(ob, axioms, second_opinion=True) -> Verdict:
     if r == z3.sat:
         return Verdict("failed", "z3-" + z3.get_version_string(), ms, model=s.model())
     reason = s.reason_unknown()
-    if "timeout" in reason or "canceled" in reason:
+    if retry and ("timeout" in reason or "canceled" in reason):
         # a budget hit is not a verdict: one more attempt with three times the budget and another seed, so that a busy
         # machine does not flip a result (obligations that verified in milliseconds on an idle one)
         s2 = _mk_solver(axioms, ob.assumptions, ob.goal, Z3_MS * 3)
